@@ -117,6 +117,20 @@ struct Explorer {
             }
         } catch (const std::exception &e) { run.violation(cs, std::string("range() threw for min <= max: ") + e.what()); return; }
         run.add(cn.points_out, got.size());
+        // the same box traversed with the post-increment form (every third box, and every box of at most 8 points): it++ returns the
+        // position it was at and advances the iterator itself
+        if (prop != 17 && (want.size() <= 8 || (zmin + zmax) % 3 == 0)) {
+            try {
+                auto e = b.idx->end(); size_t k = 0;
+                auto it = b.idx->range(to_tuple<D, T>(mn), to_tuple<D, T>(mx));
+                while (it != e) {
+                    auto old = it++;
+                    if (k >= got.size() || from_tuple<D, T>(*old) != got[k]) { run.violation(cs, "traversal with it++ differs from traversal with ++it at element #" + std::to_string(k)); return; }
+                    if (++k > limit) { run.violation(cs, "range iteration with it++ does not terminate within n+2 steps"); return; }
+                }
+                if (k != got.size()) { run.violation(cs, "traversal with it++ yields " + std::to_string(k) + " points, with ++it " + std::to_string(got.size())); return; }
+            } catch (const std::exception &e) { run.violation(cs, std::string("range() threw for min <= max: ") + e.what()); return; }
+        }
         if (prop == 17) return;
         if (got != want) {
             size_t i = 0; while (i < got.size() && i < want.size() && got[i] == want[i]) ++i;
@@ -534,7 +548,7 @@ int main(int argc, char **argv) {
     mc::Run::EvidenceExtra ev;
     ev.states_counter = "point_multisets_indexed"; ev.transitions_counter = prop == 14 ? "contains_queries_checked" : "box_queries_checked";
     ev.nontrivial_counter = "multisets_with_2plus_distinct_points";
-    ev.rule = "real miss_threshold=64; points are supplied in enumeration order, lexicographic order and reverse lexicographic order. (a) every multiplicity vector in {0,1,65}^cells over 3x3 (2D) / 2x2x2 (3D) cell universes (65 copies of an out-of-box cell force the bigmin skip), several coordinate sets incl. the largest encodable coordinate; "
+    ev.rule = "real miss_threshold=64; boxes are traversed with ++it and (every box of at most 8 points and every third other box) again with it++; points are supplied in enumeration order, lexicographic order and reverse lexicographic order. (a) every multiplicity vector in {0,1,65}^cells over 3x3 (2D) / 2x2x2 (3D) cell universes (65 copies of an out-of-box cell force the bigmin skip), several coordinate sets incl. the largest encodable coordinate; "
               "(b) full grids 16x16, 32x32, 8x8x8, 4^4 with every axis-aligned box; (c, thorough) 16x16 grid with every {removed,x1,x2} pattern of a 3x3 window; (e) 33124 / 35937 grid points plus 7 or 19 far points, index built with 2, 8 and 20 chunks (chunked construction); (g) point sets whose sorted Morton codes are the keys of members of the one-dimensional density family (1,200 clusters whose spacing changes every 300; also with EpsilonRecursive 33 / 40, the binary-search routing path): contains() for every stored point and for the absent neighbours of every key, three boxes; (f) wide thin boxes (2^h wide for every h the coordinate type holds, miss runs of 64/65/66/130 that end just below x = 2^h, three placements of the first hit beyond): BIGMIN decisions at every bit of the code word, all dimensions and coordinate types; (d) miss-run family: a run of m consecutive out-of-box points for every m in 1..600 (and, for every fifth m and 60..70, the same constellation translated to the top bits of the code word) and every split (step 16) of the totals {63..66,127..130,191..193,255..258,319..321,511..513} into two runs separated by an in-box hit, also for Epsilon 32 and 64. " +
               std::string(prop == 14 ? "Every cell of the universe and cells just outside it / at the largest encodable coordinate are passed to contains(); oracle: membership in the multiset."
                                      : "Every box over the axis values is enumerated; oracle: brute-force filter sorted by the harness's own Morton code, with multiplicity; iteration must end within n+2 steps.") +
